@@ -56,7 +56,7 @@ deriving DecidableEq, Repr, Inhabited
 
 /-- `test_status` of a stream event -/
 inductive Status where
-  | inprogress | success | fail | skip | xfail | uxsuccess
+  | inprogress | success | fail | skip | xfail | uxsuccess | exists
 deriving DecidableEq, Repr, Inhabited
 
 /-- what a stream event carries besides its test id: a status, or a chunk of an attached file -/
@@ -65,11 +65,15 @@ inductive SKind where
   | file (eof : Bool)
 deriving DecidableEq, Repr, Inhabited
 
-/-- a `status(...)` event as it reaches the caller's StreamResult: route code (= worker), test id, payload -/
+/-- a `status(...)` event as it reaches the caller's StreamResult: route code (= worker), test id, payload,
+`test_tags` (`none` = not given), and the instant it carries if the emitter supplied one (`none` = the
+time stamp is the wall clock, put on by the suite's `TimestampingStreamResult`) -/
 structure SEv where
   w : Nat
   id : TId
   kind : SKind
+  tags : Option (List Nat) := none
+  ts : Option Nat := none
 deriving DecidableEq, Repr, Inhabited
 
 /-- what travels through the completion queue of the concurrent suites (C13) -/
